@@ -26,6 +26,7 @@ theorem fs_call_sites_expected : Generated.fsCallSites =
      "derive/generate.go:(*pkg).Delete:os.Stat:",
      "derive/generate.go:(*pkg).Print:(*os.File).Close:",
      "derive/generate.go:(*pkg).Print:os.Create:",
+     "derive/generate.go:importedFirst:filepath.Abs:",
      "derive/generate.go:newPackage:(*os.File).Close:",
      "derive/generate.go:newPackage:filepath.Abs:",
      "derive/generate.go:newPackage:format.Node:",
